@@ -23,6 +23,10 @@ use tokio::sync::mpsc::{Receiver, Sender};
 #[path = "tests/core_tests.rs"]
 pub mod core_tests;
 
+#[cfg(hotstuff_verif)]
+#[path = "verif_core.rs"]
+pub mod verif_core;
+
 pub struct Core {
     name: PublicKey,
     committee: Committee,
@@ -417,6 +421,9 @@ impl Core {
             self.generate_proposal(None).await;
         }
 
+        #[cfg(hotstuff_verif)]
+        verif_core::publish(self);
+
         // This is the main loop: it processes incoming blocks and votes,
         // and receive timeout notifications from our Timeout Manager.
         loop {
@@ -437,6 +444,8 @@ impl Core {
                 Err(ConsensusError::SerializationError(e)) => error!("Store corrupted. {}", e),
                 Err(e) => warn!("{}", e),
             }
+            #[cfg(hotstuff_verif)]
+            verif_core::publish(self);
         }
     }
 }
